@@ -415,7 +415,10 @@ def run(ctx):
     # ---- R3 single implementation
     for vn, wn in (("bbv", "write_to"), ("bbvc", "write_c")):
         b = B[vn]
-        names = [t["callee"]["def"] for bi, t in mu.calls(b, r".") if not t["callee"]["def"].startswith(("<std::result", "std::result"))]
+        # in control-flow order (a writer closure inlined back sits in later blocks than the call it is passed to)
+        rpo_pos = {bi: i for i, bi in enumerate(W.results[b.id].rpo())} if b.id in W.results else {}
+        names = [t["callee"]["def"] for bi, t in sorted(mu.calls(b, r"."), key=lambda e: rpo_pos.get(e[0], 1 << 20))
+                 if not t["callee"]["def"].startswith(("<std::result", "std::result"))]
         names = [n for n in names if "Try>::branch" not in n and "from_residual" not in n]
         report.count()
         exp = ["std::vec::Vec::<T>::with_capacity", "std::io::Cursor::<T>::new", B[wn].j["def"].replace("simple_dns::", "simple_dns::", 1),
